@@ -92,6 +92,16 @@ pub const F_EVENT_IDX: u64 = 1 << 29;
 pub const F_VERSION_1: u64 = 1 << 32;
 pub const F_ACCESS_PLATFORM: u64 = 1 << 33;
 
+/// the sound stream on behalf of another property's check (C07: every call ends; C09: no driver-owned
+/// buffer is released while posted)
+pub fn sound_cases(ctx: &Ctx, prop: &str, n: usize) -> Vec<Case> {
+    virtio_drivers::verif_hooks::set_spin_hook(Some(spin_dispatch));
+    let mut all = par_cases(ctx, prop, "snd-f10", 4, |i, id| sound::one_case(ctx, i, id, "snd-f10"));
+    all.extend(par_cases(ctx, prop, "snd", n, |i, id| sound::one_case(ctx, i, id, "snd")));
+    virtio_drivers::verif_hooks::set_spin_hook(None);
+    all
+}
+
 pub fn run(ctx: &Ctx) -> (Vec<Case>, String, bool, BTreeMap<String, String>) {
     virtio_drivers::verif_hooks::set_spin_hook(Some(spin_dispatch));
     let mut all = vec![];
@@ -110,6 +120,9 @@ pub fn run(ctx: &Ctx) -> (Vec<Case>, String, bool, BTreeMap<String, String>) {
     all.extend(par_cases(ctx, "C20", "rtc", n_small, |i, id| small::rtc_case(ctx, i, id)));
     all.extend(par_cases(ctx, "C20", "p9", n_small, |i, id| small::p9_case(ctx, i, id)));
     virtio_drivers::verif_hooks::set_spin_hook(None);
-    let rule = "one case = one driver instance on ModelTransport + LedgerHal against a reference device decoding every chain by the specification's structures, served from notify and from the busy-wait hook. gpu: random histories of resolution/get_edid/setup_framebuffer/change_resolution/flush/setup_cursor/move_cursor/drop with forced non-success responses (all defined codes, random u32, bit flips), header-only responses, DMA allocation faults, random and mutated-QEMU EDID blobs; snd: random histories of set_params/prepare/start/stop/release/jack_remap/capability getters/pcm_xfer against a scripted device (idle, in-order, bursts, out-of-order, error status)/pcm_xfer_nb+pcm_xfer_ok with completions in any order, forced control statuses, hostile item counts; snd-f10: the four deterministic F10 histories; rng/rtc/p9: random requests, every status byte, short/lying responses, valid and invalid mount tags. non-trivial = at least one operation succeeded with an effect (framebuffer/cursor attached or flushed; parameters accepted or frames delivered; entropy/clock value/9P reply returned)".to_string();
+    // the 9P mount tag while the device renames the share (tags of different lengths) at every point /
+    // pair of points of the read (C13's changing-configuration stream, 9P driver, all transports)
+    all.extend(par_cases(ctx, "C20", "p9-tag-untorn", 9, |i, id| crate::c13_config::consistent_case(ctx, 4 + (i % 3) * 5 + (i / 3) * 15, id)));
+    let rule = "one case = one driver instance on ModelTransport + LedgerHal against a reference device decoding every chain by the specification's structures, served from notify and from the busy-wait hook. gpu: random histories of resolution/get_edid/setup_framebuffer/change_resolution/flush/setup_cursor/move_cursor/drop with forced non-success responses (all defined codes, random u32, bit flips), header-only responses, DMA allocation faults, random and mutated-QEMU EDID blobs; snd: random histories of set_params/prepare/start/stop/release/jack_remap/capability getters/pcm_xfer against a scripted device (idle, in-order, bursts, out-of-order, error status)/pcm_xfer_nb+pcm_xfer_ok with completions in any order, forced control statuses, hostile item counts; snd-f10: the four deterministic F10 histories; rng/rtc/p9: random requests, every status byte, short/lying responses, valid and invalid mount tags; p9-tag-untorn: VirtIO9p::new while the device replaces its configuration (tags of different lengths, generation bumped) at every point / pair of points of the read: mount_tag() must be a tag the device exposed under one generation. non-trivial = at least one operation succeeded with an effect (framebuffer/cursor attached or flushed; parameters accepted or frames delivered; entropy/clock value/9P reply returned)".to_string();
     (all, rule, false, BTreeMap::new())
 }
